@@ -57,7 +57,7 @@ type Rand struct {
 func NewRand(r *gen.Rand) *Rand {
 	return &Rand{R: r, MaxDepth: 4, MaxWidth: 4, Keys: Keys,
 		Strings: []string{"", "a", "b", "ab", "0", "é", "😀", "false", "10"},
-		Numbers: []float64{0, 1, -1, 2, 3, 1.5, -0.5, 10, 1e3}}
+		Numbers: []float64{0, 1, -1, 2, 3, 1.5, -0.5, 10, 1e3, 16777217, 123456789}}
 }
 
 func (g *Rand) Value(depth int) interface{} {
@@ -170,7 +170,7 @@ func ProjDocs() []interface{} {
 // are mostly well-typed. Some keys are randomly missing or null.
 func (g *Rand) TypedDoc(depth int) map[string]interface{} {
 	r := g.R
-	nums := []float64{0, 1, -1, 2, 3, 1.5, -0.5, 10, 2, 1}
+	nums := []float64{0, 1, -1, 2, 3, 1.5, -0.5, 10, 2, 1, 16777217, 123456789}
 	strs := []string{"", "a", "b", "ab", "ba", "é", "10", "z", "a"}
 	d := map[string]interface{}{}
 	put := func(k string, v func() interface{}) {
